@@ -17,6 +17,7 @@ ASSUMPTIONS = ['one event per loop iteration; the hostile party may spoof any so
                'line budget constants fixed a priori (>=3x the worst honest step)']
 SHARDS = {'quick': 8, 'thorough': 16}
 TIMEOUT = {'quick': 600, 'thorough': 3000}
+import types as types_
 LEVEL = 'fault_enumeration'
 
 HUB, P1A, P2A, XA = '192.0.2.100', '192.0.2.1', '192.0.2.2', '198.51.100.7'
@@ -841,6 +842,96 @@ def run(ck):
                 ck.violation(f'other-peer-not-served:after-ike-sa-init-request-with-unusual-text-in-{where}', {'text': text[:100]}, sim.case)
             else:
                 ck.count('unusual_text.other_peer_served')
+    # ---- the work of a loop turn does not grow with the AGE of the daemon: hundreds of exchanges of every kind with one peer (the table and the SAD return to
+    # the same size after each cycle); lines executed by the hub for the same kind of turn late in the run are compared with those early in the run
+    if ck.mine(3):
+        sim, hub, (p1, p2) = S.make_star(base + 404, peers=2, dpd=6000, lifetime=360000)
+        sim.case = {'family': 'steady-state-cost'}
+        sim.acquire(p1, 0, sport=7100)
+        sim.drain()
+        cycles = 120 if not ck.thorough() else 600
+        cost = {}
+        died = []
+        sim.monitors.append(lambda s_, ep, rec: died.append(rec) if (rec.died and ep is hub) else None)
+
+        graph = []
+
+        def reachable(root):
+            # number of objects reachable from the controller through containers and instances of repository classes (its own world; shared library
+            # objects such as enum members or configuration tables are counted once and do not grow)
+            import gc
+            seen_, todo = {id(root)}, [root]
+            while todo and len(seen_) < 2000000:
+                o = todo.pop()
+                for r in gc.get_referents(o):
+                    if id(r) in seen_ or isinstance(r, (type, types_.ModuleType, types_.FunctionType, types_.BuiltinFunctionType, types_.MethodType)):
+                        continue
+                    if (getattr(type(r), '__module__', '') or '').startswith('vf'):
+                        continue            # the harness's own objects (socket stand-ins lead to the recorded history of the run)
+                    seen_.add(id(r))
+                    todo.append(r)
+            return len(seen_)
+
+        def hub_turns(kind, k):
+            # deliver everything, counting the repository lines the hub executes in its turns
+            guard = 0
+            while sim.net and guard < 40:
+                guard += 1
+                d = sim.net[0]
+                if d.dst == HUB:
+                    _r, exc, lines = mon.measure(lambda: sim.deliver(0), 10 ** 7)
+                    cost.setdefault(kind, []).append((k, lines))
+                else:
+                    sim.deliver(0)
+        for k in range(cycles):
+            sa1 = next((x for x in p1.ctl.ike_sas if x.state == State.ESTABLISHED), None)
+            if sa1 is None or died:
+                break
+            sa1.start_dpd_at = sim.clock.t - 1
+            p1.step('tick')
+            hub_turns('dpd', k)
+            sim.acquire(p1, 0, sport=7200 + k % 50)
+            hub_turns('new-child', k)
+            if len(sa1.child_sas) > 1:
+                sim.expire(p1, bytes(sa1.child_sas[-1].inbound_spi), True, daddr=P1A)
+                hub_turns('delete-child', k)
+            if sa1.child_sas:
+                sim.expire(p1, bytes(sa1.child_sas[0].inbound_spi), False, daddr=P1A)
+                hub_turns('rekey-child', k)
+            if k % 10 == 9:
+                sa1.rekey_ike_sa_at = sim.clock.t - 1
+                p1.step('tick')
+                hub_turns('rekey-ike', k)
+            sim.clock.advance(1.0)
+            mon.measure(lambda: hub.step('tick'), 10 ** 7)
+            if k % 10 == 5 and not sim.net:
+                graph.append((k, reachable(hub.ctl)))
+        ck.count('steady_state.cycles', k + 1)
+        # ... nor does what the controller holds on to: objects reachable from it at the same point of the cycle, early and late
+        if len(graph) >= 6:
+            early_n, late_n = graph[1][1], graph[-1][1]
+            ck.count('steady_state.object_graph_compared')
+            ck.seen('steady_state.reachable_objects', (early_n, late_n))
+            # (observed and reported, not judged: a bounded history or cache grows while it fills, and nothing in the statement forbids one)
+            if late_n > early_n * 1.25 + 50:
+                ck.count('steady_state.object_graph_grew')
+        ck.nontrivial(('steady-state', cycles))
+        if died:
+            ck.violation(f'loop-terminated-or-spinning:{type(died[0].exc).__name__}:after-{k}-cycles-of-ordinary-exchanges', {'exc': repr(died[0].exc)[:200]}, sim.case)
+        for kind, xs in cost.items():
+            early = sorted(l for kk, l in xs if kk < cycles // 4)
+            late = sorted(l for kk, l in xs if kk >= cycles - cycles // 4)
+            if len(early) < 5 or len(late) < 5:
+                continue
+            e_med, l_med = early[len(early) // 2], late[len(late) // 2]
+            ck.count('steady_state.kinds_compared')
+            ck.seen('steady_state.median_lines', (kind, e_med, l_med))
+            # "bounded time": a cost that is still climbing when the run ends, after having more than doubled, shows no bound; one that has levelled off (a cache or
+            # a ring buffer that filled up) is bounded and not reported
+            q3 = sorted(l for kk, l in xs if cycles // 2 <= kk < cycles - cycles // 4)
+            still_climbing = bool(q3) and l_med > 1.1 * q3[len(q3) // 2]
+            if l_med > 2 * e_med + 200 and still_climbing:
+                ck.violation(f'work-per-loop-turn-grows-with-the-age-of-the-daemon:{kind}', {'median_lines_early': e_med, 'median_lines_late': l_med, 'cycles': cycles}, sim.case)
     mon.stop()
 
 
@@ -867,5 +958,7 @@ def verdict(ck):
     ck.floor('histories cut at a delivery after which the other peer was still probed on time', c['vanish.other_peer_probed_on_time'], 80)
     ck.floor('states in which the vanished peer left its IKE_SAs at the hub', len(ck.sets['vanish.states_of_the_vanished_peers_ike_sas']), 5)
     ck.floor('IKE_SA_INIT requests with unusual text in a Vendor ID / notification after which the other peer was served', c['unusual_text.other_peer_served'], 40)
+    ck.floor('kinds of loop turn whose cost early and late in a long run were compared', c['steady_state.kinds_compared'], 4)
+    ck.floor('object graphs of the controller compared early and late in a long run', c['steady_state.object_graph_compared'], 1)
     ck.floor('phases', len(ck.sets['phases']), 5)
     return None
